@@ -17,6 +17,11 @@ mutual
   inductive Node where
     | file (data : List UInt8)
     | dir (es : Ents)
+    /-- a symbolic link.  What it points to lies outside the modelled directory (a sibling, a
+        foreign tree) or nowhere; the repaired remove_directory never follows it (lstat), and the
+        probes that do follow links (open(DIR/info), access(DIR/default.opts), access(DIR),
+        opendir(DIR)) are modelled for a link that does not resolve (assumption, see DESIGN C20) -/
+    | link (target : String)
   inductive Ents where
     | nil
     | cons (name : String) (n : Node) (rest : Ents)
@@ -26,6 +31,7 @@ mutual
   def Node.beq : Node → Node → Bool
     | .file a, .file b => a == b
     | .dir a, .dir b => Ents.beq a b
+    | .link a, .link b => a == b
     | _, _ => false
   def Ents.beq : Ents → Ents → Bool
     | .nil, .nil => true
@@ -75,24 +81,29 @@ def magic : List UInt8 := [0x46, 0x74, 0x72, 0x61, 0x63, 0x65, 0x21, 0x00]
     directory has no entries (ENOTDIR on both probes). -/
 def isUftraceDir : Node → Bool
   | .file _ => false
+  | .link _ => false
   | .dir es =>
     match es.get "info" with
     | some (.file d) => d.take 8 == magic
     | some (.dir _) => false
-    | none => (es.get "default.opts").isSome
+    | some (.link _) | none =>                       -- open() fails on an unresolved link
+      match es.get "default.opts" with
+      | some (.link _) | none => false               -- access() fails on an unresolved link
+      | some _ => true
 
 /-- is_empty_directory: opendir fails on a non-directory. -/
 def isEmptyDir : Node → Bool
   | .file _ => false
+  | .link _ => false
   | .dir es => es.isNil
 
 /-- can_remove_directory on an optional node (access(F_OK) first). -/
 def canRemove : Option Node → Bool
   | none => false
-  | some n => isUftraceDir n || isEmptyDir n
+  | some n => isUftraceDir n || isEmptyDir n          -- (access(F_OK) fails on an unresolved link)
 
 /-
-remove_directory: walks the entries in readdir order; stat, then recursive
+remove_directory: walks the entries in readdir order; lstat, then recursive
 removal or unlink; stops at the first failure; finally rmdir (which fails on a
 non-empty directory).  Returns the environment, what is left of the node
 (`none` = removed) and the C return value (`true` = 0, `false` = -1).
@@ -100,6 +111,7 @@ non-empty directory).  Returns the environment, what is left of the node
 mutual
   def rmNode : Env → Node → Env × Option Node × Bool
     | e, .file d => (e, some (.file d), false)           -- opendir fails: ENOTDIR
+    | e, .link t => (e, some (.link t), false)           -- opendir fails: ENOENT
     | e, .dir es =>
       let (e1, left, ok) := rmEnts e es
       let (e2, f) := e1.tick .rmdir
@@ -119,6 +131,9 @@ mutual
       | .file d =>
         let (e2, f2) := e1.tick .unlink
         if f2 then (e2, .cons n (.file d) r, false) else rmEnts e2 r
+      | .link t =>                                       -- lstat: not a directory; the link itself goes
+        let (e2, f2) := e1.tick .unlink
+        if f2 then (e2, .cons n (.link t) r, false) else rmEnts e2 r
 end
 
 /-- the content record writes: the joined default options and a newline (the
@@ -137,6 +152,7 @@ def renameOk (dst : Option Node) : Bool :=
   | none => true
   | some (.dir es) => es.isNil
   | some (.file _) => false
+  | some (.link _) => false
 
 /-- second half of create_directory: mkdir, then create_default_opts.
 `fixed = false` is the code before the repair of finding F1
